@@ -76,6 +76,10 @@ CHECKS['C08'] = dict(cat='proof', ref='DESIGN.md section 3 C08',
 CHECKS['C16'] = dict(cat='proof', ref='DESIGN.md section 3 C16',
     text='Every supported combination of {f, g, f_and_g, g_prod, f_and_g_prod} and renamed methods, wrapped by the real ForwardSDE / RenameMethodsSDE, gives the identical step result for every solver when the documented fall-back rules can derive what the solver needs, and an explicit RuntimeError otherwise; derived operators (g_prod, g dg v for diagonal/default/additive, both Levy-area Jacobian implementations) equal their definitions obtained by formal differentiation.',
     note='T1,T3,T6,T7; dimension-bounded B=2,d=2,m=2', tech=XDOM)
+CHECKS['C19'] = dict(cat='proof', ref='DESIGN.md section 3 C19',
+    text='Exhaustive over the finite product sde_type x noise_type x method (incl. None) x Levy area of the supplied Brownian motion (incl. bm=None) x adaptive x logqp (1600 cells): the real check_contract -> methods.select -> solver constructors are executed; ValueError before integration iff the cell is outside the documented table; default methods and default Brownian motion; 27 malformed-argument classes; adjoint side: for every (sde_type, noise, adjoint_method) the adjoint solver integrates iff admissible, else an explicit error at construction / initial state / first step.',
+    note='T6; the documented table (DOCUMENTATION.md + settings.py) is the specification; shapes are concrete small sizes (the code only compares sizes)',
+    tech='contract-based deductive verification: pyvc execution of the real front-end code, exhaustive enumeration of the finite configuration space against a specification table')
 REASONS = {}
 checks = []
 for p in props:
